@@ -39,7 +39,10 @@ man = {
         "name": "tiv", "path": "/verif/tiv",
         "serves_properties": [c["property_id"] for c in checks],
         "kind_free_text": "repository-specific static analysis on Python's ast: source model + resolver, statement CFG with exceptional edges, "
-                          "path/dominance queries, effect atoms, constant folder for control-sequence templates, regex-literal -> DFA algebra, affine cursor-row dataflow; "
+                          "path/dominance queries, effect atoms, constant folder for control-sequence templates, regex-literal -> DFA algebra, affine cursor-row dataflow, "
+                          "a normalisation layer (helper inlining with continuation pushing, canonical statement forms, record scalarisation), flow-sensitive value tracing with "
+                          "phi/try merges and negation normal forms of traced guards, symbolic output shapes, induction-variable polynomials, finite abstract-domain decisions, "
+                          "finite-state abstract interpretation of the chunking generator; "
                           "thorough tier adds an in-memory mutant catalogue (checker self-test)",
     }],
     "checks": checks,
